@@ -20,8 +20,13 @@ def run(prop, tier, repo=None, overrides=None, c_overrides=None, write=True, qui
     if mod is None:
         print("ANALYSIS-ERROR property=%s no rule module" % prop)
         return 2, None, []
+    rules_fn = mod.rules
+    if tier == 'thorough' and hasattr(mod, 'thorough_rules'):
+        def rules_fn(ctx, _m=mod):
+            _m.rules(ctx)
+            _m.thorough_rules(ctx)
     return core.run_property(
-        prop, mod.rules, tier=tier, repo=repo, overrides=overrides,
+        prop, rules_fn, tier=tier, repo=repo, overrides=overrides,
         c_overrides=c_overrides, write=write, quiet=quiet,
         explanation=getattr(mod, 'EXPLANATION', ''),
         not_decided=getattr(mod, 'NOT_DECIDED', ''),
